@@ -735,7 +735,13 @@ def _run(model, group, kernels, seed, tier, R, only=None):
 def run_shard(spec, R):
     rng = random.Random(spec["seed"])
     kernels = pick_kernels(spec["model"], rng, spec["tier"])
+    code = isolate.code_hash()
     _run(spec["model"], spec["group"], kernels, spec["seed"], spec["tier"], R)
+    if isolate.code_hash() != code:
+        # reports of one history are only comparable when they come from one version of the tree under test
+        R.witnesses[:] = []
+        R.witness_counts.clear()
+        raise RuntimeError("the tree under test (%s) was modified while the shard was running; nothing can be concluded" % isolate.repo())
 
 
 def replay(case, R):
